@@ -104,7 +104,8 @@ class _Delegate:
 
 class Client:
     def __init__(self, world, name, appid="sim.example/app", api="deferred",
-                 versions=None, dilation=False, url=None):
+                 versions=None, dilation=False, url=None,
+                 lazy_messages=False):
         self.world = world
         self.name = name
         self.api = api
@@ -121,6 +122,8 @@ class Client:
         self.pc = 0
         self.extra_gets = []      # [kind, state] for C18
         self.ever_open = False    # first websocket open seen
+        self.lazy_messages = lazy_messages
+        self._wait_from = {}
         self.versions = versions if versions is not None else {}
         sim = world.sim
         kw = {}
@@ -161,7 +164,8 @@ class Client:
             d = getter()
             d.addCallbacks(lambda v, k=kind: self._ev(k, v),
                            lambda f, k=kind: self._err(k, f))
-        self._next_message()
+        if not self.lazy_messages:
+            self._next_message()
 
     def _err(self, kind, f):
         self.events.append((kind + "_err", f.type))
@@ -309,6 +313,9 @@ class MailboxWorld:
             return len(c.received) >= op[1] or c.is_closed
         if kind == "wait_event":
             return c.has(op[1]) or c.is_closed
+        if kind == "wait_steps":
+            start = c._wait_from.setdefault(c.pc, self.sim.steps)
+            return self.sim.steps - start >= op[1]
         if kind == "wait_all_delivered":
             # stands in for an application-level "we are done" handshake: both
             # directions fully delivered (or somebody already closed)
